@@ -10,9 +10,9 @@ LEAN_MODULES = ["LexVerif.Props.C06", "LexVerif.Props.RoundNE", "LexVerif.Props.
 GEN = ["write_tables"]
 TRUSTED = TRUSTED_BASE + [
     "binary.rs / hex.rs are modelled in Lean (Model/WriteBinary.lean; the `wf` model column must equal the implementation's bytes on every op). "
-    "Proved for ALL finite non-zero floats, radices 2/4/8/16/32, all documented base pairs, all three notations: the laid-out digits denote exactly "
+    "Proved for ALL finite floats (sign removed, zero included), radices 2/4/8/16/32, all documented base pairs, all three notations: the laid-out digits denote exactly "
     "the float (writeBinary_exact_digits_partial) and re-round to the same bits (writeBinary_roundtrip_partial). NOT proved: digits -> bytes -> "
-    "parser inverse (byte-level Prop writeBinary_exact), zero, sign, specials, max_significant_digits: covered by the exact-value judge on every op; "
+    "parser inverse (byte-level Prop writeBinary_exact), sign, specials, max_significant_digits: covered by the exact-value judge on every op; "
     "mantissa digits are Spec.toDigits (the integer writer is C03's subject)",
 ]
 RULE = ("for radix 2/4/8/16/32 and the mixed formats 4/2, 8/2, 16/2, 32/2, 16/4 (exponent radix 10, radix, base): every binade x "
